@@ -6,6 +6,10 @@ import json, os
 ALL = ["C%02d" % i for i in range(1, 53)]
 
 CLAIMED = {
+ "C21": dict(
+   text="InclusiveRange for all 20 integer/Word element types: the real NewInclusiveRangeValueWithStep (construction fails exactly for step 0 / moving away from end), NewInclusiveRangeIterator + Next (first 3 (thorough 5) elements from construction, and one step from an arbitrary member position: a one-step induction over the position) and InclusiveRangeContains, against the exact arithmetic sequence in unbounded integers, for every start/end/step/needle of the type.",
+   note="Three genuine defects are recorded as known findings (iterator steps past the type bound; contains() overflows on needle-start; contains(end) true for an unreachable end) and suppressed only inside their input regions. The atree-backed composite is replaced by a three-field object symbolically (natively the real composite is used); implicit-step constructor outside.",
+   design="3 C21"),
  "C14": dict(
    text="For all 20 integer/Word types: & | ^ checked bit by bit against the two's-complement representation, << against x*2^n truncated to the width, >> against floor(x/2^n), for every operand and every shift amount of the operand type (negative amounts must fail); the 128/256-bit toTwosComplement/Lsh/truncate/fromTwosComplement pipeline is executed for real over a bit-vector model of math/big.",
    note="Full width for sized types (big.Int model width 272/528 bits, a checked bound). Int/UInt: |value| < 2^128 and shift < 128, or shift beyond uint64 (overflow error allowed); shifts in [128,2^64) of unbounded ints are outside. values.SignedBigIntToSizedBigEndianBytes / BigEndianBytesToSignedBigInt are replaced by exact summaries that C17 verifies against the real bodies.",
@@ -63,7 +67,6 @@ NA_REASON = {
  "C18": "not built yet",
  "C19": "NFC normalisation / grapheme segmentation are Unicode-table state machines in external libraries; no encodable oracle",
  "C20": "atree B+-tree containers, slab thresholds, storage reloads",
- "C21": "not built yet",
  "C22": "transaction histories over runtime + ledger", "C23": "transaction histories over runtime + ledger (slab health)",
  "C24": "transaction histories over runtime + ledger (write deferral)", "C25": "capability controller histories over the runtime",
  "C26": "contract lifecycle histories over the runtime", "C27": "contract update validation over program pairs and stored data",
